@@ -251,11 +251,12 @@ class Program:
             return find_matches(pattern, student_code=self.code, report=self.report, use_previous=use_previous)
         return find_matches(pattern, report=self.report, use_previous=use_previous)
 
-    def find_match(self, pattern):
+    def find_match(self, pattern, use_previous=None):
         from pedal.cait.cait_api import find_match
+        kw = {} if use_previous is None else {"use_previous": use_previous}
         if self.setup == "code":
-            return find_match(pattern, student_code=self.code, report=self.report)
-        return find_match(pattern, report=self.report)
+            return find_match(pattern, student_code=self.code, report=self.report, **kw)
+        return find_match(pattern, report=self.report, **kw)
 
 
 class RealRun:
@@ -314,6 +315,11 @@ class RealRun:
                         self.first_differs = True
             elif api == "prev":
                 raw = program.find_matches(pattern, use_previous=parent)
+                # the other spelling: find_match(..., use_previous=parent) is the first of these
+                if (len(pattern) + program.size) % 3 == 0:
+                    first = program.find_match(pattern, use_previous=parent)
+                    if (first is None) != (not raw) or (raw and canon_shape(first) != canon_shape(raw[0])):
+                        self.first_differs = True
             else:
                 raw = self.snode.find_matches(pattern, is_mod=multi, use_previous=use_previous)
         except RecursionError:
@@ -356,18 +362,38 @@ class RealRun:
         if self.compare_model:
             return self.matches
         names = pattern_names(self.ptree)
+        # a continued match is ONE match together with the match it continues ("every _name_ placeholder is bound
+        # to a single student identifier throughout the match"): what the inherited AstMap binds belongs to it,
+        # whether or not the matcher copied it into the map it returns
+        inherited = inherited_binds(self.parent)
         out = []
         for m in self.matches:
+            binds = {k: [(i, () if n and n[0] == "outside" else n) for i, n in lst] for k, lst in m["binds"].items()}
+            for k, idents in inherited.items():
+                have = {i for i, _ in binds.get(k, [])}
+                extra = [(i, ()) for i in idents if i not in have]
+                if extra:
+                    binds[k] = binds.get(k, []) + extra
             out.append({"root": m["root"], "maps": m["maps"], "conf": m["conf"],
                         "exps": {k: v for k, v in m["exps"].items() if k in names},
-                        "binds": {k: [(i, () if n and n[0] == "outside" else n) for i, n in lst]
-                                  for k, lst in m["binds"].items()}})
+                        "binds": binds})
         return out
 
     def embed_request(self):
         ms = self.embed_matches()
         return ("embed " + self.penc + " " + self.senc + " " + str(len(ms)) + " " +
                 " ".join(enc_match(m) for m in ms))
+
+
+def inherited_binds(parent):
+    """{(table tag, key): [identifier, ...]} of an AstMap given as use_previous"""
+    out = {}
+    if parent is None:
+        return out
+    for tag, attr in TBL.items():
+        for key, lst in getattr(parent, attr).items():
+            out[(tag, key)] = list(dict.fromkeys(sym.id for sym in lst.my_list))
+    return out
 
 
 def _flex(node):
@@ -765,6 +791,306 @@ class DecoyGen:
         return src
 
 
+# --------------------------------------------------------------------------
+# programs for CONTINUED matches (find_matches(..., use_previous=match), match['__e__'].find_matches(...)): one
+# BINDER statement whose variable the parent pattern binds to a placeholder, and a body made of look-alike
+# instances of statement shapes - one over the bound variable, one over a decoy - so that a continued pattern
+# rooted at ANY node kind has a genuine occurrence (over the bound variable) and a rival one (over the decoy).
+# {v} the bound variable / the decoy, {w} another identifier, {k} a constant, {f} a function name, t a target.
+
+KIND_SHAPES = [
+    # binary operations, non-commutative and commutative, nested both ways
+    "t = {w} - {v}", "t = {v} / {k}", "t = {w} // {v}", "t = {v} % {w}", "t = {v} ** {k}", "t = {w} @ {v}",
+    "t = {v} << {k}", "t = {w} >> {v}", "t = {w} | {v}", "t = {v} & {w}", "t = {w} ^ {v}",
+    "t = {w} + {v}", "t = {v} * {k}", "t = ({w} - {v}) * {k}", "t = {w} + {v} * {q}", "t = {w} - ({v} + {k})",
+    "t = {v} * ({w} + {q})", "t = {q} + ({v} + {w})", "t = ({w} / {v}) - ({v} % {q})",
+    # other expression kinds
+    "t = -{v}", "t = not {v}", "t = ~{v}", "t = {v} < {w}", "t = {w} == {v} != {k}", "t = {w} in {v}",
+    "t = {v} is None", "t = {v} and {w}", "t = {w} or {v} or {k}", "t = [{v}, {w}]", "t = ({w}, {v})",
+    "t = {{{v}: {w}}}", "t = {{{k}: {v}}}", "t = {{{w}, {v}}}", "t = {w}[{v}]", "t = {v}[{k}:]", "t = {w}[{k}:{v}]",
+    "t = {v}.val", "t = {v}.val.get", "t = {w}.get({v})", "t = {f}({v})", "t = {f}({w}, key={v})", "t = {f}(*{v})",
+    "t = {f}(**{v})", "t = {v}({w})", "t = {v} if {w} else {k}", "t = {w} if {v} else {k}",
+    "t = lambda {v}: {v} - {w}", "t = lambda: {v}", "t = [{v} for z in {w}]", "t = [z for z in {v} if z]",
+    "t = {{z: {v} for z in {w}}}", "t = ({v} for z in {w})", "t = {{{v} for z in {w}}}", "t = f'{{{v}}}!'",
+    "t = [*{v}, {w}]", "t = ({w} := {v})",
+    # statement kinds
+    "{v}({w})", "{v}.append({w})", "print({v})", "print({w}, {v}, sep={k})", "t: int = {v}", "t += {v}", "{v} -= {k}",
+    "{v} = {v} + {w}", "del {v}", "assert {v}, {w}", "assert {w} < {v}", "t[{v}] = {w}", "t.val = {v}",
+    "{v}, t = {w}", "t = u = {v}", "raise E({v})", "raise {v} from {w}", "pass\n{f}({v})",
+    "if {v} < {k}:\n    t = {v}", "if {w}:\n    pass\nelse:\n    t = {v}", "if {w}:\n    pass\nelif {v}:\n    pass",
+    "while {v}:\n    {v} -= 1", "while {w}:\n    t = {v}\nelse:\n    pass", "for z in {v}:\n    print(z)",
+    "for t in {w}:\n    print({v})", "for {v} in {w}:\n    {f}({v})", "with {f}({v}) as z:\n    pass",
+    "with {w} as {v}:\n    {v}.get()", "try:\n    t = {v}\nexcept E:\n    pass",
+    "try:\n    pass\nexcept E:\n    t = {v}\nfinally:\n    {f}({v})", "def {f}2(p={v}):\n    return p",
+    "def {f}3({v}):\n    return {v}", "def {f}4(*{v}, **z):\n    return {v}", "class C({v}):\n    pass",
+    "class D:\n    t = {v}", "t = {k}\n{f}({v})\nt = {w}",
+]
+KIND_SHAPES_DEF_ONLY = ["return {v}", "return {w} - {v}", "t = (yield {v})", "t = await {v}"]
+# (program text around the body, the pattern an instructor writes for the binder alone, whether it is a def)
+CONT_BINDERS = [
+    ("for {x} in xs:\n{I}", "for _v_ in ___:\n    pass", False),
+    ("for {x} in xs:\n{I}", "for _v_ in ___:\n    __e__", False),
+    ("{x} = 0\n{B}", "_v_ = 0", False),
+    ("def main({x}, n):\n{I}", "def main(_v_, ___):\n    pass", True),
+    ("def main({x}, n):\n{I}", "def main(_v_, ___):\n    __e__", True),
+    ("while {x} < n:\n{I}", "while _v_ < ___:\n    pass", False),
+    ("with open(p) as {x}:\n{I}", "with ___ as _v_:\n    __e__", False),
+    ("if {x}:\n    z = 1\nelse:\n{I}", "if _v_:\n    pass", False),
+    ("async def main({x}, n):\n{I}", "async def main(_v_, ___):\n    pass", True),
+    ("{x} = {y} = 0\n{B}", "_v_ = _u_ = 0", False),
+    ("for {x}, {y} in xs:\n{I}", "for _v_, _u_ in ___:\n    pass", False),
+    ("def main({x}, {y}=0):\n{I}", "def main(_v_, _u_=0):\n    __e__", True),
+]
+CONT_IDS = [("item", "other"), ("a", "b"), ("x", "y"), ("total", "rest")]
+
+
+def handler_kinds():
+    """AST classes that have a deep_find_match_<Kind> / shallow_match_<Kind> method of their own in the matcher
+    UNDER TEST (everything else goes through the generic ones)"""
+    from pedal.cait.stretchy_tree_matching import StretchyTreeMatcher
+    out = set()
+    for name in dir(StretchyTreeMatcher):
+        for prefix in ("deep_find_match_", "shallow_match_"):
+            if name.startswith(prefix) and isinstance(getattr(ast, name[len(prefix):], None), type):
+                out.add(name[len(prefix):])
+    return sorted(out)
+
+
+class ContGen:
+    """program(i) -> (code, binder pattern, {placeholder: identifier} the binder pattern must bind).  The shapes are
+    taken round robin, so every shape is used after len(KIND_SHAPES) / 3 programs whatever the seed."""
+
+    def __init__(self, rng):
+        self.rng = rng
+        self.shapes = list(KIND_SHAPES)
+        rng.shuffle(self.shapes)
+        self.pos = 0
+
+    def next_shapes(self, n, in_def):
+        out = []
+        for _ in range(n):
+            out.append(self.shapes[self.pos % len(self.shapes)])
+            self.pos += 1
+        if in_def and self.rng.random() < 0.6:
+            out.append(self.rng.choice(KIND_SHAPES_DEF_ONLY))
+        return out
+
+    def program(self, i):
+        rng = self.rng
+        wrap, binder, in_def = CONT_BINDERS[i % len(CONT_BINDERS)]
+        if "await" in wrap:
+            in_def = True
+        x, y = CONT_IDS[(i // len(CONT_BINDERS)) % len(CONT_IDS)]
+        shapes = self.next_shapes(3, in_def)
+        shapes = [s for s in shapes if "await" not in s or wrap.startswith("async")]
+        w, q, k, f = rng.choice(["w", "n", y]), rng.choice(["q", "n"]), rng.choice(["0", "1", "''", "None"]), rng.choice(["f", "g"])
+        seqs = []
+        two = "{y}" in wrap
+        for v in (x, y) + (() if two or rng.random() < 0.6 else ("zz",)):
+            seqs.append([s.format(v=v, w=(w if w != v else "w"), q=q, k=k, f=f) for s in shapes])
+        seqs.append([rng.choice(DECOY_FIXED[:5]) for _ in range(rng.randint(0, 1))])
+        out = []
+        seqs = [s for s in seqs if s]
+        while seqs:
+            s = rng.choice(seqs)
+            out.append(s.pop(0))
+            if not s:
+                seqs.remove(s)
+        flat = "".join(s + "\n" for s in out)
+        code = wrap.format(x=x, y=y, B=flat, I=_indent(flat, 1))
+        ast.parse(code)
+        binds = {"_v_": x}
+        if "_u_" in binder:
+            binds["_u_"] = y
+        return code, binder, binds
+
+
+# fixed witnesses for continued matches: (program, parent pattern, {placeholder: identifier} of the parent match to
+# continue, continued pattern, {placeholder: identifier} a continued match must have | None = no demand beyond C10)
+CONT_CORPUS = [
+    ("for item in items:\n    total = total - other\n    rest = rest - item\n", "for _v_ in ___:\n    pass", {"_v_": "item"},
+     "___ - _v_", {"_v_": "item"}),
+    ("for item in items:\n    share = item / count\n    part = count / other\n", "for _v_ in ___:\n    pass", {"_v_": "item"},
+     "_v_ / ___", {"_v_": "item"}),
+    ("for item in items:\n    total = total - other\n", "for _v_ in ___:\n    pass", {"_v_": "item"}, "___ - _v_", None),
+    ("for item in items:\n    s = s + other\n    s = s + item\n", "for _v_ in ___:\n    pass", {"_v_": "item"},
+     "___ + _v_", {"_v_": "item"}),
+    ("for item in items:\n    s = other * (s + 1)\n", "for _v_ in ___:\n    pass", {"_v_": "item"}, "_v_ * (___ + 1)", None),
+    ("def f(a, b):\n    g(b)\n    g(a)\n", "def _f_(_v_, ___):\n    pass", {"_v_": "a", "_f_": "f"}, "___(_v_)", {"_v_": "a"}),
+    ("def f(a, b):\n    g(b)\n    f(a)\n", "def _f_(_v_, ___):\n    pass", {"_v_": "a", "_f_": "f"}, "_f_(___)", {"_f_": "f"}),
+    ("x = 0\ny = 1\nt = -y\nt = -x\n", "_v_ = 0", {"_v_": "x"}, "-_v_", {"_v_": "x"}),
+    ("x = 0\ny = 1\nt = y < 2\nt = x < 2\n", "_v_ = 0", {"_v_": "x"}, "_v_ < 2", {"_v_": "x"}),
+    ("x = 0\ny = 1\nprint(y)\nprint(x)\n", "_v_ = 0", {"_v_": "x"}, "print(_v_)", {"_v_": "x"}),
+    ("x = 0\ny = 1\nt = y.val\nt = x.val\n", "_v_ = 0", {"_v_": "x"}, "_v_.val", {"_v_": "x"}),
+    ("x = 0\ny = 1\nt = [y, 2]\nt = [x, 2]\n", "_v_ = 0", {"_v_": "x"}, "[_v_, 2]", {"_v_": "x"}),
+    ("x = 0\ny = 1\nt = lambda y: y\nt = lambda x: x\n", "_v_ = 0", {"_v_": "x"}, "lambda _v_: _v_", {"_v_": "x"}),
+    ("x = 0\ny = 1\nif y:\n    pass\nif x:\n    pass\n", "_v_ = 0", {"_v_": "x"}, "if _v_:\n    pass", {"_v_": "x"}),
+    ("x = 0\ny = 1\ndel y\ndel x\n", "_v_ = 0", {"_v_": "x"}, "del _v_", {"_v_": "x"}),
+    ("x = 0\ny = 1\nt = y\nu = y\nt = x\nu = x\n", "_v_ = 0", {"_v_": "x"}, "t = _v_\nu = _v_", {"_v_": "x"}),
+    ("x = 0\ny = 1\ny += 1\nx += 1\n", "_v_ = 0", {"_v_": "x"}, "_v_ += 1", {"_v_": "x"}),
+    ("x = 0\ny = 1\nclass A(y):\n    pass\nclass B(x):\n    pass\n", "_v_ = 0", {"_v_": "x"}, "class ___(_v_):\n    pass",
+     {"_v_": "x"}),
+    ("x = 0\ny = 1\ndef g(y):\n    pass\ndef h(x):\n    pass\n", "_v_ = 0", {"_v_": "x"}, "def ___(_v_):\n    pass", {"_v_": "x"}),
+    ("x = 0\ny = 1\nt = y ** 2\nt = x ** 2\n", "_v_ = 0", {"_v_": "x"}, "_v_ ** 2", {"_v_": "x"}),
+    ("x = 0\ny = 1\nt = y\n", "_v_ = 0", {"_v_": "x"}, "_v_", {"_v_": "x"}),
+    ("for item in items:\n    pass\n    print(item)\n", "for _v_ in ___:\n    __e__", {"_v_": "item"}, "pass", {}),
+    ("for item in items:\n    print(other)\n    print(item)\n", "for _v_ in ___:\n    __e__", {"_v_": "item"},
+     "print(_v_)\npass", None),
+    ("x = 0\ny = 1\nt = y - 1\nt = 1 - x\n", "_v_ = 0", {"_v_": "x"}, "_v_ - 1", None),
+    ("x = 0\ny = 1\nt = f(y)[0]\nt = f(x)[0]\n", "_v_ = 0", {"_v_": "x"}, "___(_v_)[0]", {"_v_": "x"}),
+    ("x = 0\ny = 1\nt = y.val.get\nt = x.val.get\n", "_v_ = 0", {"_v_": "x"}, "_v_.val.get", {"_v_": "x"}),
+    ("x = 0\ny = 1\ny.go()\nx.go()\n", "_v_ = 0", {"_v_": "x"}, "_v_._m_()", {"_v_": "x", "_m_": "go"}),
+    ("x = 0\ny = 1\ny()\nx()\n", "_v_ = 0", {"_v_": "x"}, "_v_()", {"_v_": "x"}),
+]
+
+
+# --------------------------------------------------------------------------
+# nested binary operations: every shape of expression tree with n operands, every assignment of operators to its
+# inner nodes, operands distinct / repeated / constant, inside every kind of statement
+
+def bin_shapes(n):
+    """all binary tree shapes with n leaves: a leaf is None, an inner node a pair"""
+    if n == 1:
+        return [None]
+    out = []
+    for i in range(1, n):
+        for l in bin_shapes(i):
+            for r in bin_shapes(n - i):
+                out.append((l, r))
+    return out
+
+
+def bin_text(shape, ops, leaves):
+    """fully parenthesised text; consumes ops (pre-order) and leaves (left to right)"""
+    if shape is None:
+        return leaves.pop(0)
+    op = ops.pop(0)
+    l = bin_text(shape[0], ops, leaves)
+    r = bin_text(shape[1], ops, leaves)
+    return "(%s %s %s)" % (l, op, r)
+
+
+BIN_CONTEXTS = ["t = {E}", "def fn(p, q, r, s, u):\n    return {E}", "print({E}, k)", "if {E} > 0:\n    pass",
+                "while {E}:\n    z = 1", "t[{E}] = 0", "t += {E}", "t = [{E} for i in xs]", "t = f({E}, key=0)", "{E}",
+                "for i in xs:\n    t = {E}", "t = lambda: {E}", "t = {E} < 5", "t = -{E}", "assert {E}", "t = [{E}, 0]",
+                "t = {{'k': {E}}}", "t = g(h({E}))", "with open({E}) as fh:\n    pass", "t = {E} if c else 0",
+                "t = xs[{E}:]", "t = {E} - k", "t = k / {E}", "return_ = not {E}"]
+BIN_LEAF_PLANS = ["distinct", "distinct", "repeat-ends", "repeat-inner", "same", "const-right", "const-left", "call", "attr"]
+
+
+def bin_leaves(plan, n, rng):
+    names = ["p", "q", "r", "s", "u"][:n]
+    if plan == "repeat-ends":
+        names[-1] = names[0]
+    elif plan == "repeat-inner" and n >= 3:
+        names[2] = names[1]
+    elif plan == "same":
+        names = ["p"] * n
+    elif plan == "const-right":
+        names[-1] = "2"
+    elif plan == "const-left":
+        names[0] = "2"
+    elif plan == "call":
+        names[rng.randrange(n)] = "f(%s)" % names[0]
+    elif plan == "attr":
+        names[rng.randrange(n)] = "%s.val" % names[-1]
+    return names
+
+
+def derive_bin(rng, code, tree, mode):
+    """the instructor's pattern for a statement with nested operations: EVERY identifier of the fragment replaced by a
+    placeholder of its own ("all"), some of them ("some"), all + one operand a wildcard / an __expr__ ("wild")"""
+    dv = _Deriver(rng, code, tree)
+    stmts = dv.statements()
+    target = [st for st, _ in stmts if any(isinstance(n, ast.BinOp) for n in ast.walk(st))]
+    if target and not (mode == "all" and rng.random() < 0.3):
+        # the innermost statement holding the operation, or an enclosing one
+        dv.take_statement(rng.choice(target[-2:]) if rng.random() < 0.7 else target[0])
+    ids = dv.identifiers()
+    for x in ids:
+        if mode != "some" or rng.random() < 0.6:
+            dv.step_var(x)
+    if mode == "wild":
+        dv.step_wild()
+    return dv.finish()
+
+
+def commuted(rng, code):
+    """(pattern, its generalisation) or None: the program text with the operands of some + / * SWAPPED - a pattern
+    that is not taken from the program but matches it (C10 allows the swap) - and that pattern with every identifier
+    replaced by a placeholder.  C11's last sentence: if the first matches, the second must."""
+    try:
+        tree = ast.parse(code)
+    except SyntaxError:
+        return None
+    flex = [n for n in ast.walk(tree) if isinstance(n, ast.BinOp) and isinstance(n.op, (ast.Add, ast.Mult))]
+    if not flex:
+        return None
+    chosen = [n for n in flex if rng.random() < 0.5] or [rng.choice(flex)]
+    for n in chosen:
+        n.left, n.right = n.right, n.left
+    try:
+        p0 = ast.unparse(tree)
+        t0 = ast.parse(p0)
+    except Exception:
+        return None
+    if ast.dump(t0) == ast.dump(ast.parse(code)):
+        return None
+    d = derive_bin(rng, p0, t0, "all")
+    if d is None or not d.vars:
+        return None
+    # the whole-program variant only: derive_bin may have taken one statement
+    return p0, d.pattern
+
+
+def bin_scope(rng, tier):
+    """Yields (program, Derived, origin).  Every tree shape with 2, 3 and 4 operands x every assignment of {+, *, -} to
+    the inner nodes (quick: half of the 4-operand assignments), plus sampled trees with further operators and up to 5
+    operands (thorough: many)."""
+    count = 0
+    small = ["+", "*", "-"]
+    wide = ["+", "*", "-", "/", "%", "**", "//", "@", "|", "<<"]
+    jobs = []
+    import itertools
+    phase = rng.randrange(2)
+    for n in (2, 3, 4):
+        for shape in bin_shapes(n):
+            for ops in itertools.product(small, repeat=n - 1):
+                # quick: every assignment for 2 and 3 operands, every other one (which half: by the seed) for 4
+                if tier == "quick" and n == 4 and (len(jobs) + phase) % 2:
+                    jobs.append(None)
+                    continue
+                jobs.append((n, shape, list(ops)))
+    jobs = [j for j in jobs if j is not None]
+    extra = {"quick": 30, "thorough": 900}[tier]
+    for _ in range(extra):
+        n = rng.choice([3, 4, 4, 5])
+        shape = rng.choice(bin_shapes(n))
+        jobs.append((n, shape, [rng.choice(wide if rng.random() < 0.6 else small) for _ in range(n - 1)]))
+    for n, shape, ops in jobs:
+        count += 1
+        plans = [BIN_LEAF_PLANS[0], BIN_LEAF_PLANS[count % len(BIN_LEAF_PLANS)]]
+        if tier == "quick" and n == 4 and count % 2:
+            plans = plans[:1]
+        for pi, plan in enumerate(dict.fromkeys(plans)):
+            e = bin_text(shape, list(ops), bin_leaves(plan, n, rng))
+            ctx = BIN_CONTEXTS[(count + pi * 7) % len(BIN_CONTEXTS)]
+            code = ctx.format(E=e) + "\n"
+            if rng.random() < 0.3:
+                code = "p = 3\nq = 2\n" + code + "print(t)\n"
+            try:
+                tree = ast.parse(code)
+                code = ast.unparse(tree) + "\n"      # the text a student would write: no redundant parentheses
+                tree = ast.parse(code)
+            except SyntaxError:
+                continue
+            modes = ["all", rng.choice(["some", "wild", "wild"])]
+            for mode in modes:
+                d = derive_bin(rng, code, tree, mode)
+                if d is not None:
+                    yield code, d, "bin:" + mode
+
+
 def respell(rng, src):
     """the same program text with other line terminators / a form feed / a non-ASCII identifier"""
     k = rng.random()
@@ -945,8 +1271,10 @@ class _Deriver:
         self.work = copy_ast(tree)
         # parallel walk to map copy nodes -> original nodes
         self.orig_of = {}
+        self.copy_of = {}
         for a, b in zip(ast.walk(self.work), ast.walk(tree)):
             self.orig_of[id(a)] = b
+            self.copy_of[id(b)] = a
         self.opath = ast_index(tree)
         self.steps = []
         self.exps, self.vars = {}, {}
@@ -961,10 +1289,24 @@ class _Deriver:
         self.frag = ast.Module(body=[st], type_ignores=[])
         self.base = type(st).__name__
 
-    def step_wild(self, named=None):
+    def take_statements(self, sts):
+        """the fragment is a sequence of statements (copies in self.work) of one body: a multi-statement pattern"""
+        self.frag = ast.Module(body=list(sts), type_ignores=[])
+        self.base = "+".join(type(st).__name__ for st in sts)
+
+    def take_expr(self, orig):
+        """the fragment is ONE EXPRESSION of the program (given as a node of the original tree), as the instructor
+        writes it: an expression statement, whose Module / Expr wrapping find_matches trims away - the pattern's
+        root is the expression node itself.  Returns the wrapped copy (never to be replaced by a wildcard)."""
+        node = self.copy_of[id(orig)]
+        self.frag = ast.Module(body=[ast.Expr(value=node)], type_ignores=[])
+        self.base = "expr:" + type(node).__name__
+        return node
+
+    def step_wild(self, named=None, exclude=()):
         rng = self.rng
         cands = [c for c in _child_exprs(self.frag)
-                 if not (isinstance(c[3], ast.Name) and (c[3].id.startswith("_")))]
+                 if not (isinstance(c[3], ast.Name) and (c[3].id.startswith("_"))) and id(c[3]) not in exclude]
         if not cands:
             return False
         parent, field, idx, node = rng.choice(cands)
@@ -994,19 +1336,23 @@ class _Deriver:
         return sorted({n.id for n in ast.walk(frag) if isinstance(n, ast.Name) and not n.id.startswith("_")} |
                       {n.arg for n in ast.walk(frag) if isinstance(n, ast.arg) and not n.arg.startswith("_")})
 
-    def step_var(self, x=None):
+    def step_var(self, x=None, key=None, allow_existing=False):
         frag = self.frag
         ids = self.identifiers()
         if not ids:
             return False
         if x is None:
             x = self.rng.choice(ids)
-        key = "_%s_" % x
-        if self.rng is not None and self.rng.random() < 0.2:
+        elif x not in ids:
+            return False
+        forced = key is not None
+        if not forced:
+            key = "_%s_" % x
+        if not forced and self.rng is not None and self.rng.random() < 0.2:
             # other spellings a _var_ placeholder may have (anything matching ^_[^_].*_$)
             key = self.rng.choice(["_%s1_", "_%s_v_", "_V%s_", "_%s__x_", "_%s\u00e9_"]) % x
-        if key in ids or any(getattr(n, "id", None) == key or getattr(n, "arg", None) == key
-                             for n in ast.walk(frag)):
+        if not allow_existing and (key in ids or any(getattr(n, "id", None) == key or getattr(n, "arg", None) == key
+                                                     for n in ast.walk(frag))):
             return False
         for n in ast.walk(frag):
             if isinstance(n, ast.Name) and n.id == x:
